@@ -4,7 +4,7 @@
           relationship type);
    valid = accepted by the constructors (meaning <= 64, graphic-data rules). *)
 From Coq Require Import String ZArith List Bool QArith.
-From HD Require Import Base.Val C13_Model C13_Proofs C13_Proofs_Seq C13_Proofs_Num C13_Proofs_Hist.
+From HD Require Import Base.Val C13_Model C13_Proofs C13_Proofs_Seq C13_Proofs_Num C13_Proofs_Hist C13_Proofs_Gap.
 Import ListNotations.
 Open Scope string_scope.
 Open Scope list_scope.
@@ -764,3 +764,124 @@ Example C13_tcoord_zero_offset :
   from_sequence [to_ds t] = Ok [t].
 Proof. split; [|vm_compute; repeat split; reflexivity]. repeat split; constructor. Qed.
 Print Assumptions C13_tcoord_zero_offset.
+
+(* ================================================================== *)
+(* closedness of a 3D POLYGON is EXACT equality of the end points: no
+   tolerance, absolute or relative.  An open contour is refused whatever the
+   size of the gap and wherever the contour lies ... *)
+Theorem C13_polygon_open_refused : forall p mid q,
+  qlist_eqb p q = false -> scoord3d_check G3Polygon (p :: mid ++ [q]) = Err "ValueError".
+Proof. exact polygon_open_refused. Qed.
+Print Assumptions C13_polygon_open_refused.
+
+Theorem C13_polygon_gap_refused : forall (x y z ex ey ez : Q) mid,
+  ~ (ex == 0 /\ ey == 0 /\ ez == 0)%Q ->
+  scoord3d_check G3Polygon ([x; y; z] :: mid ++ [[x + ex; y + ey; z + ez]%Q]) = Err "ValueError".
+Proof. exact polygon_gap_refused. Qed.
+Print Assumptions C13_polygon_gap_refused.
+
+(* ... and the verdict on 3D graphic data (count, dimension, closed, coplanar)
+   is the same wherever the origin of the frame of reference is: moving every
+   point by the same vector changes nothing (a comparison with a tolerance
+   relative to the size of the coordinates would) *)
+Theorem C13_closed_translation_invariant : forall t pts, closed (map (shift3 t) pts) = closed pts.
+Proof. exact closed_shift. Qed.
+Print Assumptions C13_closed_translation_invariant.
+
+Theorem C13_graphic_data_translation_invariant : forall g t pts,
+  scoord3d_check g (map (shift3 t) pts) = scoord3d_check g pts.
+Proof. exact scoord3d_check_shift. Qed.
+Print Assumptions C13_graphic_data_translation_invariant.
+
+(* a contour at a table position of -1500 mm that stops 0.01 mm short of its
+   first point; the outline of a nucleus on a slide that ends one 0.25 um pixel
+   beside its start; a gap of 2^-30 mm at 2^20 mm (relative size 2^-50): all
+   refused; the same contours closed, and the first one moved to the origin:
+   accepted *)
+Definition ex_far (last : list Q) : list (list Q) :=
+  [[-153225 # 100; 2105 # 10; -987]; [-1500; 2105 # 10; -987]; [-1500; 26075 # 100; -987]; last]%Q.
+Example C13_polygon_gap_far_from_origin :
+  scoord3d_check G3Polygon (ex_far [-153224 # 100; 2105 # 10; -987]%Q) = Err "ValueError" /\
+  scoord3d_check G3Polygon (ex_far [-153225 # 100; 2105 # 10; -987]%Q) = Ok tt /\
+  scoord3d_check G3Polygon (map (shift3 (153225 # 100, - (2105 # 10), 987)%Q)
+                                (ex_far [-153225 # 100; 2105 # 10; -987]%Q)) = Ok tt /\
+  scoord3d_check G3Polygon [[41237 # 1000; 17502 # 1000; 0]; [41242 # 1000; 17502 # 1000; 0];
+                            [41242 # 1000; 17508 # 1000; 0]; [41237 # 1000; 17508 # 1000; 0];
+                            [4123725 # 100000; 17502 # 1000; 0]]%Q = Err "ValueError" /\
+  scoord3d_check G3Polygon [[1048576; 0; 0]; [1048586; 0; 0]; [1048586; 10; 0];
+                            [1048576 + (1 # 1073741824); 0; 0]]%Q = Err "ValueError" /\
+  scoord3d_check G3Polygon [[1048576; 0; 0]; [1048586; 0; 0]; [1048586; 10; 0]; [1048576; 0; 0]]%Q = Ok tt.
+Proof. vm_compute. repeat split; reflexivity. Qed.
+Print Assumptions C13_polygon_gap_far_from_origin.
+
+(* ================================================================== *)
+(* once everything before them is in order (value type, required attributes,
+   name, children), X.from_dataset answers with the outcome - and the error -
+   of its class-specific conversions of coded concepts *)
+Theorem C13_from_dataset_error_is_conversion_error : forall c a, before_value_ok c a ->
+  accept (Some c) (DSet a) = value_codes c a.
+Proof. exact accept_is_value_codes. Qed.
+Print Assumptions C13_from_dataset_error_is_conversion_error.
+
+(* NUM: the Measurement Units Code Sequence (Type 1 inside the measured value)
+   is needed when PARSING.  If the first measured value has none, the dataset
+   is refused with AttributeError by NumContentItem.from_dataset itself - not
+   later, by the unit accessor *)
+Theorem C13_num_units_required : forall a ms it,
+  before_value_ok NumContentItem a ->
+  lookup "MeasuredValueSequence" a = Some ms -> first_item ms = Ok it ->
+  lookup "MeasurementUnitsCodeSequence" it = None ->
+  accept (Some NumContentItem) (DSet a) = Err "AttributeError" /\
+  parse2 (Some NumContentItem) (DSet a) = Err "AttributeError".
+Proof. exact num_units_required. Qed.
+Print Assumptions C13_num_units_required.
+
+(* take ANY dataset NumContentItem.from_dataset accepts and put a measured value
+   without units in the place of its Measured Value Sequence, everything else
+   untouched (qualifier or not, children or not): refused with AttributeError *)
+Theorem C13_num_units_stripped_refused : forall a a' ms' it',
+  accept (Some NumContentItem) (DSet a) = Ok tt ->
+  (forall k, k <> "MeasuredValueSequence" -> lookup k a' = lookup k a) ->
+  lookup "MeasuredValueSequence" a' = Some ms' -> first_item ms' = Ok it' ->
+  lookup "MeasurementUnitsCodeSequence" it' = None ->
+  accept (Some NumContentItem) (DSet a') = Err "AttributeError" /\
+  parse2 (Some NumContentItem) (DSet a') = Err "AttributeError".
+Proof. exact num_units_stripped_refused. Qed.
+Print Assumptions C13_num_units_stripped_refused.
+
+(* non-vacuity: what the constructor writes for a NUM item with a qualifier is
+   accepted; with the units deleted from the measured value it is refused by
+   the class, by from_sequence and inside a container; an EMPTY Measured Value
+   Sequence is refused too (IndexError) *)
+Definition ex_num_attrs (mv : dval) : attrs :=
+  [("ValueType", DStr "NUM"); ("ConceptNameCodeSequence", DSeq [code_ds ex_code]);
+   ("RelationshipType", DStr "CONTAINS"); ("MeasuredValueSequence", mv);
+   ("NumericValueQualifierCodeSequence", DSeq [code_ds ex_code])].
+Definition ex_mv (with_units : bool) : dval :=
+  DSeq [DSet (("NumericValue", DNums [375 # 100]%Q) ::
+              if with_units then [("MeasurementUnitsCodeSequence", DSeq [code_ds ex_code])] else [])].
+Example C13_num_units_example :
+  to_ds (Item NumContentItem ex_code (Some CONTAINS) (VNum (375 # 100) false ex_code (Some ex_code)) [])
+    = DSet (ex_num_attrs (ex_mv true)) /\
+  accept (Some NumContentItem) (DSet (ex_num_attrs (ex_mv true))) = Ok tt /\
+  (forall k, k <> "MeasuredValueSequence" ->
+     lookup k (ex_num_attrs (ex_mv false)) = lookup k (ex_num_attrs (ex_mv true))) /\
+  accept (Some NumContentItem) (DSet (ex_num_attrs (ex_mv false))) = Err "AttributeError" /\
+  accept_sequence [DSet (ex_num_attrs (ex_mv false))] = Err "AttributeError" /\
+  parse (Some NumContentItem) (DSet (ex_num_attrs (ex_mv false))) = Err "AttributeError" /\
+  accept (Some ContainerContentItem)
+    (DSet [("ValueType", DStr "CONTAINER"); ("ConceptNameCodeSequence", DSeq [code_ds ex_code]);
+           ("ContinuityOfContent", DStr "SEPARATE");
+           ("ContentSequence", DSeq [DSet (ex_num_attrs (ex_mv false))])]) = Err "AttributeError" /\
+  accept (Some NumContentItem) (DSet (ex_num_attrs (DSeq []))) = Err "IndexError".
+Proof.
+  split; [vm_compute; reflexivity|]. split; [vm_compute; reflexivity|]. split.
+  - intros k Hk. unfold ex_num_attrs. cbn [lookup].
+    destruct (String.eqb "ValueType" k); [reflexivity|].
+    destruct (String.eqb "ConceptNameCodeSequence" k); [reflexivity|].
+    destruct (String.eqb "RelationshipType" k); [reflexivity|].
+    destruct (String.eqb "MeasuredValueSequence" k) eqn:E; [apply String.eqb_eq in E; congruence|].
+    reflexivity.
+  - vm_compute. repeat split; reflexivity.
+Qed.
+Print Assumptions C13_num_units_example.
